@@ -522,7 +522,9 @@ class DocumentationAggregator(CMakeListener):
         :param docstring: Cleaned docstring.
         """
 
-        args = ctx.single_argument() + ctx.compound_argument()
+        # Keep single and compound arguments in the order they were written
+        args = [child for child in ctx.getChildren()
+                if isinstance(child, (CMakeParser.Single_argumentContext, CMakeParser.Compound_argumentContext))]
         args = [val.getText() for val in args]
         self.documented.append(GenericCommandDocumentation(
             command_name, docstring, args))
